@@ -25,10 +25,16 @@ theorem Rot.map {a b : List Nat} (h : Rot a b) (f : Nat → Nat) : Rot (a.map f)
   · exact Or.inr (Or.inr (map_rotateLeft' f b 2))
 
 theorem Rot.length {a b : List Nat} (h : Rot a b) : a.length = b.length := by
+  have hl : ∀ (l : List Nat) (n : Nat), (l.rotateLeft n).length = l.length := by
+    intro l n; unfold List.rotateLeft; simp only; split
+    · rfl
+    · simp only [List.length_append, List.length_drop, List.length_take]
+      have := Nat.mod_lt n (show 0 < l.length by omega)
+      omega
   rcases h with rfl | rfl | rfl
   · rfl
-  · exact List.length_rotateLeft ..
-  · exact List.length_rotateLeft ..
+  · exact hl _ _
+  · exact hl _ _
 
 theorem Rot.trans3 {a b c : List Nat} (h1 : Rot a b) (h2 : Rot b c) (hc : c.length = 3) : Rot a c := by
   match c, hc with
@@ -69,6 +75,27 @@ theorem tris_class_eq (p q r s : Nat) (hd : [p, q, r, s].Nodup) (t1 t2 : List Na
   · exfalso
     obtain ⟨w, hw2, hw1, _⟩ := tris_pair p q r s hd t1 t2 h1 h2 e
     exact hw1 ((r1.mem_iff (tris_length p q r s t1 h1) w).mp ((r2.mem_iff (tris_length p q r s t2 h2) w).mpr hw2))
+
+/-- the vertices met by the halffaces of a `TetOn` list are exactly `p, q, r, s` -/
+theorem TetOn.mem_verts {k : Kernel} {hs : List Nat} {p q r s : Nat} (hT : TetOn k hs p q r s) :
+    ∀ x, x ∈ hs.flatMap k.hfVerts ↔ x ∈ [p, q, r, s] := by
+  have hd := hT.1
+  intro x
+  rw [List.mem_flatMap]
+  constructor
+  · rintro ⟨h, hm, hx⟩
+    obtain ⟨t, htt, hr⟩ := hT.2.2.2.1 h hm
+    obtain ⟨_, _, _, _, hsub⟩ := tri_apex p q r s hd t htt
+    exact hsub x ((hr.mem_iff (tris_length p q r s t htt) x).mp hx)
+  · intro hx
+    have : x ∈ [p, q, r] ∨ x ∈ [q, p, s] := by
+      simp only [List.mem_cons, List.not_mem_nil, or_false] at hx ⊢
+      rcases hx with e | e | e | e <;> simp [e]
+    rcases this with h1 | h1
+    · obtain ⟨h, hm, hr⟩ := hT.2.2.2.2.1 [p, q, r] (by simp [tris])
+      exact ⟨h, hm, (hr.mem_iff rfl x).mpr h1⟩
+    · obtain ⟨h, hm, hr⟩ := hT.2.2.2.2.1 [q, p, s] (by simp [tris])
+      exact ⟨h, hm, (hr.mem_iff rfl x).mpr h1⟩
 
 /-! ### `TetOn` does not depend on the order of the halfface list -/
 theorem TetOn.perm {k : Kernel} {hs hs' : List Nat} {p q r s : Nat} (h : TetOn k hs p q r s) (hp : hs'.Perm hs) :
@@ -116,6 +143,146 @@ theorem TetOn.rot_base {k : Kernel} {hs : List Nat} {p q r s : Nat} (h : TetOn k
     obtain ⟨t', ht', q1, _⟩ := key t ht
     exact f h hh h' hh' t' ht' (r1.trans3 q1 (tris_length _ _ _ _ t' ht')) (r2.trans3 q1 (tris_length _ _ _ _ t' ht'))
   where rot_refl (a : List Nat) : Rot a a := Or.inl rfl
+
+/-! ### pigeonhole on four -/
+def pick4 (j0 j1 j2 j3 : Fin 4) (i : Fin 4) : Fin 4 :=
+  match i with | 0 => j0 | 1 => j1 | 2 => j2 | 3 => j3
+
+theorem fin4_surj_inj : ∀ j0 j1 j2 j3 : Fin 4, (∀ j : Fin 4, ∃ i : Fin 4, pick4 j0 j1 j2 j3 i = j) →
+    ∀ i i' : Fin 4, pick4 j0 j1 j2 j3 i = pick4 j0 j1 j2 j3 i' → i = i' := by decide
+
+theorem pick4_self (c : Fin 4 → Fin 4) (i : Fin 4) : pick4 (c 0) (c 1) (c 2) (c 3) i = c i := by
+  match i with
+  | 0 => rfl
+  | 1 => rfl
+  | 2 => rfl
+  | 3 => rfl
+
+theorem fin4_fun_surj_inj (c : Fin 4 → Fin 4) (hs : ∀ j, ∃ i, c i = j) : ∀ i i', c i = c i' → i = i' := by
+  intro i i' h
+  apply fin4_surj_inj (c 0) (c 1) (c 2) (c 3)
+  · intro j; obtain ⟨i, hi⟩ := hs j; exact ⟨i, by rw [pick4_self]; exact hi⟩
+  · rw [pick4_self, pick4_self]; exact h
+
+/-- pigeonhole on four: a total, functional, surjective relation from a 4-list to a duplicate-free 4-list is injective -/
+theorem pigeon4 (R : Nat → List Nat → Prop) (l : List Nat) (T : List (List Nat)) (hl : l.length = 4) (hTl : T.length = 4)
+    (hT : T.Nodup) (fn : ∀ a t t', t ∈ T → t' ∈ T → R a t → R a t' → t = t')
+    (tot : ∀ a ∈ l, ∃ t ∈ T, R a t) (surj : ∀ t ∈ T, ∃ a ∈ l, R a t) :
+    l.Nodup ∧ ∀ a ∈ l, ∀ a' ∈ l, ∀ t ∈ T, R a t → R a' t → a = a' := by
+  have c : ∀ i : Fin 4, ∃ j : Fin 4, R (l[i.val]'(by omega)) (T[j.val]'(by omega)) := by
+    intro i
+    obtain ⟨t, ht, hr⟩ := tot (l[i.val]'(by omega)) (List.getElem_mem _)
+    obtain ⟨j, hj, rfl⟩ := List.getElem_of_mem ht
+    exact ⟨⟨j, by omega⟩, hr⟩
+  let cf : Fin 4 → Fin 4 := fun i => Classical.choose (c i)
+  have hcf : ∀ i : Fin 4, R (l[i.val]'(by omega)) (T[(cf i).val]'(by omega)) := fun i => Classical.choose_spec (c i)
+  have tinj : ∀ j j' : Fin 4, T[j.val]'(by omega) = T[j'.val]'(by omega) → j = j' := by
+    intro j j' e
+    have := (List.getElem_inj hT).mp e
+    exact Fin.ext this
+  have hs : ∀ j, ∃ i, cf i = j := by
+    intro j
+    obtain ⟨a, ha, hr⟩ := surj (T[j.val]'(by omega)) (List.getElem_mem _)
+    obtain ⟨i, hi, rfl⟩ := List.getElem_of_mem ha
+    refine ⟨⟨i, by omega⟩, tinj _ _ ?_⟩
+    exact fn _ _ _ (List.getElem_mem _) (List.getElem_mem _) (hcf ⟨i, by omega⟩) hr
+  have cinj := fin4_fun_surj_inj cf hs
+  have key : ∀ i i' : Fin 4, ∀ t ∈ T, R (l[i.val]'(by omega)) t → R (l[i'.val]'(by omega)) t → i = i' := by
+    intro i i' t ht r1 r2
+    apply cinj
+    apply tinj
+    rw [fn _ _ _ (List.getElem_mem _) ht (hcf i) r1, fn _ _ _ (List.getElem_mem _) ht (hcf i') r2]
+  constructor
+  · unfold List.Nodup
+    rw [List.pairwise_iff_getElem]
+    intro i j hi hj hij e
+    have hj' : j < 4 := by omega
+    have := key ⟨i, by omega⟩ ⟨j, hj'⟩ _ (List.getElem_mem _) (hcf ⟨i, by omega⟩) (by
+      show R (l[j]'(by omega)) _
+      rw [← e]; exact hcf ⟨i, by omega⟩)
+    have := congrArg Fin.val this
+    simp at this; omega
+  · intro a ha a' ha' t ht r1 r2
+    obtain ⟨i, hi, rfl⟩ := List.getElem_of_mem ha
+    obtain ⟨i', hi', rfl⟩ := List.getElem_of_mem ha'
+    have := key ⟨i, by omega⟩ ⟨i', by omega⟩ t ht r1 r2
+    have := congrArg Fin.val this
+    simp at this; subst this; rfl
+
+/-! ### `TetOn` from a cover of the four triangles -/
+
+theorem tris_list_nodup (p q r s : Nat) (hd : [p, q, r, s].Nodup) : (tris p q r s).Nodup := by
+  simp only [List.nodup_cons, List.mem_cons, List.not_mem_nil, or_false, not_or, List.nodup_nil, and_true] at hd
+  obtain ⟨⟨hpq, hpr, hps⟩, ⟨hqr, hqs⟩, hrs, _⟩ := hd
+  simp only [tris, List.nodup_cons, List.mem_cons, List.not_mem_nil, or_false, not_or, List.nodup_nil, and_true,
+    List.cons.injEq, not_and]
+  refine ⟨⟨fun e => absurd e hpq, fun e => absurd e hpr, fun _ e => absurd e hqr⟩,
+    ⟨fun e => absurd e hqr, fun e => absurd e.symm hpq⟩, fun e => absurd e.symm hpr, not_false⟩
+
+/-- four halffaces, each in the rotation class of a triangle of the tetrahedron, every triangle hit: then
+    they are pairwise different and correspond one to one to the triangles -/
+theorem tetOn_of_cover {k : Kernel} {hs : List Nat} {p q r s : Nat} (hd : [p, q, r, s].Nodup) (hl : hs.length = 4)
+    (tot : ∀ h ∈ hs, ∃ t ∈ tris p q r s, Rot (k.hfVerts h) t)
+    (surj : ∀ t ∈ tris p q r s, ∃ h ∈ hs, Rot (k.hfVerts h) t) : TetOn k hs p q r s := by
+  obtain ⟨n, inj⟩ := pigeon4 (fun h t => Rot (k.hfVerts h) t) hs (tris p q r s) hl rfl (tris_list_nodup p q r s hd)
+    (fun a t t' ht ht' r1 r2 => tris_class_eq p q r s hd t t' ht ht' _ r1 r2) tot surj
+  exact ⟨hd, hl, n, tot, surj, inj⟩
+
+/-- the canonical instance: halffaces on `(p,q,r)`, `(q,p,s)`, `(r,q,s)`, `(p,r,s)` -/
+theorem tetOn_canon {k : Kernel} {a b c d p q r s : Nat} (hd : [p, q, r, s].Nodup)
+    (ra : Rot (k.hfVerts a) [p, q, r]) (rb : Rot (k.hfVerts b) [q, p, s]) (rc : Rot (k.hfVerts c) [r, q, s])
+    (rd : Rot (k.hfVerts d) [p, r, s]) : TetOn k [a, b, c, d] p q r s := by
+  apply tetOn_of_cover hd rfl
+  · intro h hh
+    simp only [List.mem_cons, List.not_mem_nil, or_false] at hh
+    rcases hh with rfl | rfl | rfl | rfl
+    · exact ⟨_, by simp [tris], ra⟩
+    · exact ⟨_, by simp [tris], rb⟩
+    · exact ⟨_, by simp [tris], rc⟩
+    · exact ⟨_, by simp [tris], rd⟩
+  · intro t ht
+    simp only [tris, List.mem_cons, List.not_mem_nil, or_false] at ht
+    rcases ht with rfl | rfl | rfl | rfl
+    · exact ⟨a, by simp, ra⟩
+    · exact ⟨b, by simp, rb⟩
+    · exact ⟨c, by simp, rc⟩
+    · exact ⟨d, by simp, rd⟩
+
+/-- **renaming**: if the new halffaces carry, one for one, the renamed vertex cycles of the old ones (up to
+    rotation) and the four renamed vertices are still distinct, the new halffaces form the renamed tetrahedron
+    (also across two states; with `f = id` this is invariance under any change that keeps the vertex cycles) -/
+theorem TetOn.transfer {k k' : Kernel} {hs hs' : List Nat} {p q r s : Nat} (f : Nat → Nat) (h : TetOn k hs p q r s)
+    (hd : [f p, f q, f r, f s].Nodup) (hl : hs'.length = 4)
+    (fwd : ∀ y ∈ hs', ∃ x ∈ hs, Rot (k'.hfVerts y) ((k.hfVerts x).map f))
+    (bwd : ∀ x ∈ hs, ∃ y ∈ hs', Rot (k'.hfVerts y) ((k.hfVerts x).map f)) :
+    TetOn k' hs' (f p) (f q) (f r) (f s) := by
+  apply tetOn_of_cover hd hl
+  · intro y hy
+    obtain ⟨x, hx, rx⟩ := fwd y hy
+    obtain ⟨t, ht, rt⟩ := h.2.2.2.1 x hx
+    refine ⟨t.map f, ?_, rx.trans3 (rt.map f) (by simp [tris_length p q r s t ht])⟩
+    rw [← tris_map]; exact List.mem_map.mpr ⟨t, ht, rfl⟩
+  · intro t' ht'
+    rw [← tris_map] at ht'
+    obtain ⟨t, ht, rfl⟩ := List.mem_map.mp ht'
+    obtain ⟨x, hx, rt⟩ := h.2.2.2.2.1 t ht
+    obtain ⟨y, hy, ry⟩ := bwd x hx
+    exact ⟨y, hy, ry.trans3 (rt.map f) (by simp [tris_length p q r s t ht])⟩
+
+/-- `IsTet` from `TetOn` on the stored vertex cycle of the first halfface -/
+theorem isTet_of_tetOn {k : Kernel} {c p q r s : Nat} (hv : k.hfVerts ((k.cellAt c).headD 0) = [p, q, r])
+    (h : TetOn k (k.cellAt c) p q r s) : IsTet k c := by
+  unfold IsTet
+  rw [hv]
+  exact ⟨s, (cellVertSet_mem_iff h s).mpr (by simp), h⟩
+
+/-- `IsTet` from `TetOn` on any rotation of the first halfface's cycle -/
+theorem isTet_of_tetOn_rot {k : Kernel} {c p q r s : Nat} (hv : Rot (k.hfVerts ((k.cellAt c).headD 0)) [p, q, r])
+    (h : TetOn k (k.cellAt c) p q r s) : IsTet k c := by
+  rcases (rot_three _ p q r).mp hv with e | e | e
+  · exact isTet_of_tetOn e h
+  · exact isTet_of_tetOn e h.rot_base
+  · exact isTet_of_tetOn e h.rot_base.rot_base
 
 end Kernel
 end OVM
